@@ -34,3 +34,77 @@ Proof. vm_compute. reflexivity. Qed.
 Example c04_idempotent_is_retried :
   count_sent (fst (run 20 true {| can_send := fun _ _ => true; answer := fun _ _ => wto |} [1; 2]%N)) = 2%nat.
 Proof. vm_compute. reflexivity. Qed.
+
+(** ---- added: the same property over the integrated request-path model Model/Core.v
+    (many requests, many connections, stream-id tables, retries, closes, failed writes) ---- *)
+From Coq Require Import List ZArith NArith Bool Permutation.
+From CqlProxy Require Import Lib.Val Gen.Tables Model.Retry Model.Core Proofs.CoreProofs Proofs.CoreProofs2.
+Local Open Scope N_scope.
+
+(** ** C04 -- a non-idempotent request is never re-sent after an outcome that may have applied it *)
+
+(** T6.  Let [r] be non-idempotent.  After an ERROR frame delivered to [r] that is not safe to resend
+    after, or a RESULT frame delivered to [r], or the close notification of the connection [r] was
+    pending on, nothing is ever written for [r] again, by any later event. *)
+Theorem c04_core_nonidem_never_resent_after_unsafe : forall es1 e es2 r q,
+  lookupN r (w_reqs (run_events es1)) = Some q -> q_idem q = false ->
+  final_for (run_events es1) r e ->
+  backend_writes (run_events (es1 ++ e :: es2)) r = backend_writes (run_events es1) r.
+Proof. exact core_nonidem_never_resent_after_unsafe. Qed.
+Print Assumptions c04_core_nonidem_never_resent_after_unsafe.
+
+(** the same, the three cases of [final_for] spelled out *)
+Theorem c04_core_nonidem_not_resent_after_unsafe_error : forall es1 k s m o es2 r q,
+  lookupN r (w_reqs (run_events es1)) = Some q -> q_idem q = false ->
+  lookupN s (live (run_events es1) k) = Some r -> safe_to_resend (OError m) = false ->
+  backend_writes (run_events (es1 ++ EFrame k s (FError m) o :: es2)) r = backend_writes (run_events es1) r.
+Proof. exact core_nonidem_not_resent_after_unsafe_error. Qed.
+Print Assumptions c04_core_nonidem_not_resent_after_unsafe_error.
+
+Theorem c04_core_not_resent_after_result : forall es1 k s o es2 r,
+  lookupN s (live (run_events es1) k) = Some r ->
+  backend_writes (run_events (es1 ++ EFrame k s FResult o :: es2)) r = backend_writes (run_events es1) r.
+Proof. exact core_not_resent_after_result. Qed.
+Print Assumptions c04_core_not_resent_after_result.
+
+Theorem c04_core_nonidem_not_resent_after_close : forall es1 k c o es2 r q,
+  lookupN r (w_reqs (run_events es1)) = Some q -> q_idem q = false ->
+  lookupN k (w_conns (run_events es1)) = Some c -> In r (b_tonotify c) ->
+  backend_writes (run_events (es1 ++ ENotify k r o :: es2)) r = backend_writes (run_events es1) r.
+Proof. exact core_nonidem_not_resent_after_close. Qed.
+Print Assumptions c04_core_nonidem_not_resent_after_close.
+
+(** Conversely, an event that writes a non-idempotent request is either its start (its first write)
+    or an ERROR frame delivered to it after which a resend is safe (unavailable, bootstrapping, read
+    timeout); and no event writes a request more than once. *)
+Theorem c04_core_nonidem_write_cause : forall es e r q,
+  lookupN r (w_reqs (run_events (es ++ [e]))) = Some q -> q_idem q = false ->
+  backend_writes (run_events (es ++ [e])) r <> backend_writes (run_events es) r ->
+  (exists cl cs p o, e = EStart r cl cs false p o /\ lookupN r (w_reqs (run_events es)) = None) \/
+  (exists k s m o, e = EFrame k s (FError m) o /\ lookupN s (live (run_events es) k) = Some r /\
+                   safe_to_resend (OError m) = true).
+Proof. exact core_nonidem_write_cause. Qed.
+Print Assumptions c04_core_nonidem_write_cause.
+
+Theorem c04_core_one_write_per_event : forall es e r,
+  exists l, backend_writes (run_events (es ++ [e])) r = backend_writes (run_events es) r ++ l /\ (length l <= 1)%nat.
+Proof. exact core_one_write_per_event. Qed.
+Print Assumptions c04_core_one_write_per_event.
+
+(** any request: nothing is written for it once it has been answered *)
+Theorem c04_core_no_write_after_reply : forall es1 es2 r q,
+  lookupN r (w_reqs (run_events es1)) = Some q -> q_done q = true ->
+  backend_writes (run_events (es1 ++ es2)) r = backend_writes (run_events es1) r.
+Proof. exact core_no_write_after_reply. Qed.
+Print Assumptions c04_core_no_write_after_reply.
+
+Example c04_core_example :
+  let es1 := firstn 5 ex_es in
+  let e := EFrame 1 1 (FError write_timeout) [Some (2, true)] in
+  (lookupN 1 (live (run_events es1) 1), option_map q_idem (lookupN 8 (w_reqs (run_events es1))),
+   safe_to_resend (OError write_timeout),
+   backend_writes (run_events (es1 ++ e :: skipn 6 ex_es)) 8, backend_writes (run_events es1) 8,
+   client_replies (run_events (es1 ++ [e])) 8) =
+  (Some 8, Some false, false, [(1, 1)], [(1, 1)], [ToClient 1 6%Z 8 (CFrame 1 1)]).
+Proof. exact ex_nonidem_final. Qed.
+
